@@ -9,6 +9,7 @@ pub mod inst;
 pub mod net;
 pub mod oracle_frames;
 pub mod ovl;
+pub mod kports;
 pub mod portloop;
 pub mod oracle_tlv;
 pub mod oracle_view;
